@@ -10,6 +10,7 @@ import IbcVerif.Driver.Ident
 import IbcVerif.Driver.Delay
 import IbcVerif.Driver.Version
 import IbcVerif.Driver.Router
+import IbcVerif.Driver.Authz
 open Lean
 namespace IbcVerif.Driver.Pure
 open IbcVerif.J
@@ -22,6 +23,7 @@ def handlers : List (String → Json → Option (Except String Json)) :=
   , IbcVerif.Driver.Delay.handle
   , IbcVerif.Driver.Version.handle
   , IbcVerif.Driver.Router.handle
+  , IbcVerif.Driver.Authz.handle
   ]
 
 def handle (f : String) (j : Json) : Except String Json :=
